@@ -92,14 +92,16 @@ claim("C12", "type-resolved who-may-call over all workspace MIR + enumerated tab
       " That the remaining order sources (BFS order, OrderedHash* insertion order) are deterministic functions of the sources is not decided.",
       "trusted: rustc MIR and type resolution, fact dumper; tables c12_hash_iter.tsv / c12_id_order.tsv / c12_ambient.tsv carry the reasons",
       "DESIGN.md section 4, C12")
-claim("C08", "path rules on MIR (guard obligations on the demand-analysis callbacks) + gate propagation over the call graph",
-      "Second sentence of C08 only: whenever the borrow checker's demand analysis meets a second use of a variable or an undemanded "
+claim("C08", "path rules on MIR (guard obligations on the demand-analysis callbacks) + gate propagation over the call graph + exhaustive-visit rule on a tree walk",
+      "Mainly the second sentence of C08: whenever the borrow checker's demand analysis meets a second use of a variable or an undemanded "
       "variable, the reporter callback is reached on every path; the callbacks report VariableMoved / VariableNotDropped / "
       "DesnappingANonCopyableType unless copy / drop / destruct / panic-destruct applies with the right impl-function pairing; the analyzer "
       "introduces every statement's outputs, uses its inputs and merges with the panic branch at every panicable call under no further condition; and every call "
       "leading to a Sierra-program query is dominated by the success edge of the diagnostics gate (ensure / ensure_diagnostics / !check) or "
       "lies in a function all of whose callers are, except documented-precondition entry points." + DECIDES +
-      " Totality of the back end on error-free programs (first sentence) is not decided.",
+      " Of the first sentence only this is decided: the variable-usage analysis that gives closures their captures and loop functions their "
+      "parameters reaches every child expression of every expression kind. Totality of the back end on error-free programs is otherwise not decided. "
+      "One genuine defect found by that rule (a coupon argument was not walked) was repaired in /repo (fix: commit d7f6deb).",
       "trusted: rustc MIR, fact dumper, rules/guards.py; assumes indexmap insert/swap_remove semantics",
       "DESIGN.md section 4, C08")
 claim("C07", "must-pass-through on MIR (validation dominates constant construction) + reachability with correlated predicates",
